@@ -36,7 +36,8 @@ RULE = ("K = 2..4 users with unequal Nr/Nt/Ns, raw channel matrix supplied by "
         "documents) and their Ns[k] smallest eigenvalues; after a "
         "re-initialisation the path loss is re-applied only half of the time "
         "(it stays in force otherwise). "
-        "In a third of the solver cases the object held another solution (other stream counts and power) before. ")
+        "In a third of the solver cases the object held another solution (other stream counts and power) before. "
+        "In half of the solver cases the power is changed through the P setter (scalar / None / vector) after the SINRs were read, and everything is read again. ")
 ASSUMPTIONS = ["relative tolerance 256 eps n (1 + SINR): the library forms the "
                "denominator by subtracting the own-stream covariance",
                "K >= 2 with generic precoders, so denominators are positive"]
@@ -58,6 +59,7 @@ def blocks(M, Nr, Nt):
 # survives only through cancellation (SINR of 1e-11 ...) is computed by ANY
 # double-precision implementation with a relative error of eps * this factor.
 SIGNAL_COND = {}
+DEN_COND = {}
 
 
 def oracle_sinr(Hkj, Hext_k, F, U, noise, pe):
@@ -87,6 +89,18 @@ def oracle_sinr(Hkj, Hext_k, F, U, noise, pe):
             if noise:
                 den += noise * float(np.sum(np.abs(u) ** 2))
             s[l] = sig / den
+            # the library evaluates the denominator as the quadratic form
+            # u^H B u of a covariance MATRIX B = (sum over all streams) - (own
+            # stream): its rounding error is eps |u|^T |B| |u|, which exceeds
+            # eps * den by this factor when u is nearly orthogonal to what it
+            # should suppress
+            ua = np.abs(u)
+            dabs = sum(float(np.sum((ua @ np.abs(Hkj[k][j] @ F[j])) ** 2)) for j in range(K))
+            if Hext_k is not None and Hext_k[k] is not None:
+                dabs += pe * float(np.sum((ua @ np.abs(Hext_k[k])) ** 2))
+            if noise:
+                dabs += noise * float(np.sum(ua ** 2))
+            DEN_COND[(k, l)] = dabs / den if den > 0 else 1.0
         out.append(s)
     return out
 
@@ -118,6 +132,13 @@ def oracle_jp(Hk, Hext_k, F, U, noise, pe):
             if noise:
                 den += noise * float(np.sum(np.abs(u) ** 2))
             s[l] = sig / den
+            ua = np.abs(u)
+            dabs = sum(float(np.sum((ua @ np.abs(Hk[k] @ F[j])) ** 2)) for j in range(K))
+            if Hext_k is not None and Hext_k[k] is not None:
+                dabs += pe * float(np.sum((ua @ np.abs(Hext_k[k])) ** 2))
+            if noise:
+                dabs += noise * float(np.sum(ua ** 2))
+            DEN_COND[(k, l)] = dabs / den if den > 0 else 1.0
         out.append(s)
     return out
 
@@ -133,7 +154,8 @@ def cmp_sinr(ctx, monitor, cls, got, want, nterms, detail):
         cond = np.array([min(SIGNAL_COND.get((k, l), 1.0), 1e8) for l in range(w.size)])
         # 256 eps n (1 + SINR) for well-conditioned terms, plus twice the
         # first-order bound 2 n eps cond of the desired-signal inner product
-        tol = EPS * nterms * (256 * (1 + w) + 4 * cond) * w + 1e-300
+        dcond = np.array([min(DEN_COND.get((k, l), 1.0), 1e12) for l in range(w.size)])
+        tol = EPS * nterms * (256 * (1 + w) + 4 * cond + 4 * dcond) * w + 1e-300
         ratio = float(np.max(np.abs(g - w) / tol)) if w.size else 0.0
         ctx.stat(monitor, ratio)
         ctx.ev(monitor, ratio <= 1.0, cls=cls, n=w.size,
@@ -443,6 +465,32 @@ def case_solver(ctx, rng, idx):
         ctx.ev("solver-full_F", all(np.allclose(np.asarray(sfF[k]), fullF[k], rtol=1e-12,
                                                 atol=1e-14) for k in range(K)),
                cls=route, detail=d())
+    # the power is changed through the public setter AFTER the SINRs were read:
+    # what is reported next belongs to the new power
+    if route != "set_precoders(full_F)" and rng.random() < 0.5:
+        kindp = int(rng.integers(0, 3))
+        newP = [float(10.0 ** rng.uniform(-1, 1)), None, 10.0 ** rng.uniform(-1, 1, size=K)][kindp]
+        okc, _ = ctx.call("solver-sinr", setattr, solver, "P",
+                          newP.copy() if isinstance(newP, np.ndarray) else newP,
+                          cls="P-setter-raised", detail=tag)
+        if okc:
+            Pv = np.ones(K) if newP is None else np.broadcast_to(np.asarray(newP, float), (K,))
+            fullF2 = [Fu[k] * math.sqrt(Pv[k]) for k in range(K)]
+            okc, fWH2 = ctx.call("solver-sinr", lambda: solver.full_W_H, detail=tag)
+            if okc:
+                U2 = [herm(np.asarray(fWH2[k])) for k in range(K)]
+                want2 = oracle_sinr(Hkj, None, fullF2, U2, noise, 0.0)
+                d2 = lambda **e: (lambda: {**tag, "raw": raw, "power_changed_to": newP, **e})
+                okc, got2 = ctx.call("solver-sinr", solver.calc_SINR, detail=tag)
+                if okc:
+                    cmp_sinr(ctx, "solver-sinr", "after-P-setter:" + ["scalar", "None", "vector"][kindp],
+                             got2, want2, nterms, d2())
+                    okc4, cap2 = ctx.call("sum-capacity", solver.calc_sum_capacity, detail=tag)
+                    if okc4:
+                        wcap2 = float(sum(np.sum(np.log2(1 + np.asarray(g, dtype=float)))
+                                          for g in want2))
+                        ctx.within("sum-capacity", abs(cap2 - wcap2), 1e-9 * (1 + abs(wcap2)),
+                                   "solver:after-P-setter", d2(got=cap2, want=wcap2))
     ctx.sig("solver", K, tuple(Nr), tuple(Nt), tuple(Ns), route, noise is None,
             pl is not None)
     ctx.sample("solver", tag)
